@@ -133,6 +133,17 @@ def extract_tables(repo=None):
     if len(vmtypes) != 1:
         raise ExtractError(f"check_root: expected one literal list of vm object types, found {vmtypes}")
     out["vm_types"] = vmtypes[0]
+    # compare_chain: the vm object types and the two file suffixes
+    f = _find(tree, "QCOW2ImageTransfer.compare_chain")
+    vmtypes = [[e.value for e in n.elts] for n in ast.walk(f) if isinstance(n, ast.List)
+               and all(isinstance(e, ast.Constant) and isinstance(e.value, str) for e in n.elts)]
+    sufs = sorted({n.right.value for n in ast.walk(f) if isinstance(n, ast.BinOp) and isinstance(n.op, ast.Add)
+                   and isinstance(n.right, ast.Constant) and isinstance(n.right.value, str)
+                   and isinstance(n.left, ast.Name) and n.left.id == "next_state"})
+    if len(vmtypes) != 1 or len(sufs) != 2:
+        raise ExtractError(f"compare_chain: expected one list of vm object types and two file suffixes, found {vmtypes} / {sufs}")
+    out["chain_vm_types"] = vmtypes[0]
+    out["chain_suffixes"] = sufs           # sorted: [".qcow2", ".state"]
     # the documented scope names: default of pool_scope in the shipped configuration
     cfg = open(os.path.join(repo, "tp_folder/configs/groups-base.cfg")).read()
     m = re.findall(r"^\s*pool_scope\s*=\s*(.*?)\s*$", cfg, flags=re.M)
@@ -182,6 +193,11 @@ def render_extracted(t):
         f"abbrev unsetRootLocal : String := {_lean_str(t['unset_root'][0])}",
         f"abbrev unsetRootPool : String := {_lean_str(t['unset_root'][1])}",
         f"abbrev rootVmTypes : List String := {lst(t['vm_types'])}",
+        "",
+        "/-- `QCOW2ImageTransfer.compare_chain`: object types that carry a vm state file, and the file suffixes -/",
+        f"abbrev chainVmTypes : List String := {lst(t['chain_vm_types'])}",
+        f"abbrev chainImageSuffix : String := {_lean_str(t['chain_suffixes'][0])}",
+        f"abbrev chainStateSuffix : String := {_lean_str(t['chain_suffixes'][1])}",
         "",
         "/-- the documented scope names (default of `pool_scope` in tp_folder/configs/groups-base.cfg) -/",
         f"abbrev allScopes : List String := {lst(t['all_scopes'])}",
@@ -305,6 +321,35 @@ class Impl:
             def unset_root(cls, params, object=None):
                 me.log.append("pool.unset_root")
 
+        class ChainOps:
+            @staticmethod
+            def compare(cache_path, pool_path, params):
+                c = me.case
+                cpre, ppre = c["cache_dir"] + "/vm1-id/", c["pool_dir"] + "/vm1-id/"
+                rel = cache_path[len(cpre):]
+                ok = cache_path.startswith(cpre) and pool_path == ppre + rel
+                me.log.append(rel if ok else f"compare?{cache_path}?{pool_path}")
+                return rel not in c["differing"]
+
+        def next_dependency(cls, state, params):
+            c = me.case
+            if me.pos >= len(c["chain"]) or c["chain"][me.pos] != state:
+                me.log.append(f"dependency?{state}")
+            me.pos += 1
+            return c["chain"][me.pos] if me.pos < len(c["chain"]) else ""
+
+        self.Chain = type("RecTransfer", (poolmod.QCOW2ImageTransfer,), {
+            "ops": ChainOps, "get_dependency": classmethod(next_dependency)})
+
+        def route(tag):
+            def f(cache_path, pool_path, params):
+                me.log.append(f"{tag} {cache_path} {pool_path}")
+                return True
+            return staticmethod(f)
+
+        self.Route = type("RecTransferOps", (poolmod.TransferOps,), {
+            "compare_remote": route("remote"), "compare_link": route("link"), "compare_local": route("local")})
+
         def rec(tag, ret=None):
             def f(cls, params, object=None):
                 me.log.append(tag)
@@ -335,6 +380,24 @@ class Impl:
         """returns (result, [contacts])"""
         self.case = case
         self.log = []
+        self.pos = 0
+        if case["kind"] == "chain":
+            params = self.Params({"vms": "vm1", "object_id": "vm1-id", "images": " ".join(case["images"]),
+                                  "object_type": case["otype"]})
+            try:
+                r = self.Chain.compare_chain(case["chain"][0] if case["chain"] else "", case["cache_dir"],
+                                             case["pool_dir"], params)
+                res = "true" if r else "false"
+            except Exception as e:       # noqa
+                res = self._err(e)
+            return res, list(self.log)
+        if case["kind"] == "cmp":
+            try:
+                self.Route.compare(case["cache"], case["pool"], self.Params({}))
+                res = self.log[0] if len(self.log) == 1 else "calls:" + ";".join(self.log)
+            except Exception as e:       # noqa
+                res = self._err(e)
+            return res, []
         if case["kind"] == "state":
             gw, host, swarm, shared = case["own"]
             d = {"nets": "net1", "vms": "vm1", "images": "image1", "object_type": "nets/vms/images",
@@ -377,6 +440,11 @@ def case_line(c):
         val = ";".join(f"{k}={1 if v else 0}" for k, v in c["valid"].items())
         return "|".join(["state", c["op"], " ".join(c["scopes"]), ",".join(c["own"]), nets, " ".join(c["locs"]),
                          " ".join(c["cache"]), mir, val, c["state"]])
+    if c["kind"] == "chain":
+        return "|".join(["chain", " ".join(c["images"]), "1" if c["otype"] in ("vms", "nets/vms") else "0",
+                         " ".join(c["chain"]), " ".join(c["differing"])])
+    if c["kind"] == "cmp":
+        return "|".join(["cmp", c["cache"], c["pool"]])
     return "|".join(["root", c["op"], " ".join(c["scopes"]), "1" if c["local"] else "0", "1" if c["pool"] else "0",
                      "".join("1" if v else "0" for v in c["valid"]), "1" if c["is_vm"] else "0"])
 
@@ -590,6 +658,39 @@ def oracle_root(ctx, c, res, contacts):
             bad("refused-but-contacted", "the operation was refused after something was contacted")
 
 
+def oracle_chain(ctx, c, res, compared):
+    """"differs from the source": the cache is valid exactly when every file backing the state — every image's file of
+    the state and of each of its backing states, plus the vm state file of the requested state — equals the pool's"""
+    def bad(key, what):
+        ctx.violate(f"compare_chain:{key}", what + f" (verdict {res}, compared {compared})", c)
+    is_vm = c["otype"] in ("vms", "nets/vms")
+    files = []
+    for i, st in enumerate(c["chain"]):
+        files += [f"{img}/{st}.qcow2" for img in c["images"]]
+        if is_vm and i == 0:
+            files.append(f"{st}.state")
+    if any("?" in x for x in compared):
+        bad("foreign-paths", "a comparison was made between paths that do not belong to the same file of cache and source")
+        return
+    differs = [f for f in files if f in c["differing"]]
+    if res not in ("true", "false"):
+        bad("unexpected-error", "compare_chain failed")
+    elif (res == "true") != (not differs):
+        bad("verdict", f"files {differs} differ from the source")
+    if [f for f in compared if f not in files]:
+        bad("foreign-file", "a file outside the backing chain was compared")
+    if res == "true" and set(compared) != set(files):
+        bad("valid-without-comparing-all", f"declared valid although {sorted(set(files) - set(compared))} were not compared")
+
+
+def oracle_cmp(ctx, c, res, _):
+    if c["pool"].count(":") == 1 and not re.fullmatch(r"(remote|link|local) \S+ \S*", res):
+        ctx.violate("compare:not-routed", f"TransferOps.compare did not reach exactly one comparator ({res})", c)
+
+
+ORACLES = {"state": oracle_state, "root": oracle_root, "chain": oracle_chain, "cmp": oracle_cmp}
+
+
 # --------------------------------------------------------------------------------------------------------------
 # running cases through implementation + model
 # --------------------------------------------------------------------------------------------------------------
@@ -597,10 +698,20 @@ def oracle_root(ctx, c, res, contacts):
 def nontrivial(c):
     if c["kind"] == "root":
         return c["scopes"] != ["own"]
+    if c["kind"] == "chain":
+        return len(c["chain"]) * len(c["images"]) > 1
+    if c["kind"] == "cmp":
+        return True
     return well_formed(c) and any(spec_permitted(c, l) for l in c["locs"])
 
 
 def branch_counts(ctx, c, res, contacts):
+    if c["kind"] in ("chain", "cmp"):
+        ctx.count("op.compare_chain" if c["kind"] == "chain" else "op.compare-routing")
+        ctx.count(f"{c['kind']}.{res.split()[0]}")
+        if c["kind"] == "chain":
+            ctx.count(f"chain.len={len(c['chain'])}")
+        return
     op = c["op"]
     ctx.count(f"op.{op}")
     ctx.count(f"scopes.n={len(c['scopes'])}")
@@ -629,7 +740,7 @@ def run_cases(ctx, cases, impl=None, oracle=True, model=True, record=True):
         res, contacts = impl.run(c)
         outs.append(res + " # " + " ".join(contacts))
         if oracle:
-            (oracle_state if c["kind"] == "state" else oracle_root)(ctx, c, res, contacts)
+            ORACLES[c["kind"]](ctx, c, res, contacts)
         if record:
             branch_counts(ctx, c, res, contacts)
             ctx.case(c, nontrivial=nontrivial(c), sample_every=20011)
@@ -637,7 +748,7 @@ def run_cases(ctx, cases, impl=None, oracle=True, model=True, record=True):
         got = vlib.driver("drv_pool", [case_line(c) for c in cases])
         for c, want, g in zip(cases, outs, got):
             if want != g:
-                ctx.disagree(f"{c['kind']}:{c['op']}", c, g, want)
+                ctx.disagree(f"{c['kind']}:{c.get('op', '')}", c, g, want)
                 break
     return outs
 
@@ -723,6 +834,42 @@ def exhaustive_root():
                             for is_vm in (False, True):
                                 yield {"kind": "root", "op": op, "scopes": perm, "local": local, "pool": pool,
                                        "valid": valid, "is_vm": is_vm, "shared": "/shared"}
+
+
+def exhaustive_chain(maxchain=3):
+    """all chains of <= maxchain states x 1..2 images x vm/image object x every set of differing files (+ one foreign)"""
+    for otype in ("vms", "nets/vms", "images", "nets/vms/images"):
+        is_vm = otype in ("vms", "nets/vms")
+        for images in (["image1"], ["image1", "image2"]):
+            for n in range(maxchain + 1):
+                chain = ["s", "b1", "b2"][:n]
+                files = [f"{img}/{st}.qcow2" for st in chain for img in images] + ([f"{chain[0]}.state"] if chain and is_vm else [])
+                extra = ["image1/zz.qcow2", "b1.state"]
+                if len(files) > 5 and otype in ("nets/vms", "images"):
+                    continue                      # the same shapes as "vms" / "nets/vms/images"
+                for diff in subsets(files):
+                    for ex in ([], extra):
+                        yield {"kind": "chain", "images": images, "otype": otype, "chain": chain, "differing": diff + ex,
+                               "cache_dir": "/own", "pool_dir": "net3:/own"}
+
+
+def random_chain_case(rng):
+    names = ["s", "b1", "b2", "b3", "b4"]
+    chain = rng.sample(names, rng.randint(0, 5))
+    if chain and rng.random() < 0.1:
+        chain.append(rng.choice(chain))            # a repeated name (not a realistic chain; outputs must still agree)
+    images = ["image1", "image2", "image3"][:rng.randint(1, 3)]
+    files = [f"{img}/{st}.qcow2" for st in names for img in images] + [f"{st}.state" for st in names]
+    return {"kind": "chain", "images": images, "otype": rng.choice(["vms", "nets/vms", "images", "nets/vms/images"]),
+            "chain": chain, "differing": [f for f in files if rng.random() < 0.08],
+            "cache_dir": rng.choice(["/own", "/mnt/local/images/swarm"]),
+            "pool_dir": rng.choice([":/shared", "net3:/own", "c1.h1:/path/1", ":/shared;"])}
+
+
+def cmp_cases():
+    for pool in (":/p/f.qcow2", ":/p;/f.qcow2", ":/p/f;.qcow2;", "host:/p/f.qcow2", "c1.h1:/p;/f", ":", "host:", "/p/f.qcow2",
+                 "a:b:c", "::", ";:/p", ":;"):
+        yield {"kind": "cmp", "cache": "/own/vm1/image1/s.qcow2", "pool": pool}
 
 
 def random_state_case(rng, maxlen=5):
@@ -811,8 +958,11 @@ def correspondence(ctx, impl=None):
             import json
             for f in sorted(os.listdir(corpus)):
                 run_cases(ctx, [json.load(open(os.path.join(corpus, f)))], impl)
-        # the root backend: the whole space
+        # the root backend: the whole space; cache validation: all small backing chains
         _run_stream(ctx, exhaustive_root(), impl)
+        _run_stream(ctx, exhaustive_chain(), impl)
+        _run_stream(ctx, cmp_cases(), impl)
+        _run_stream(ctx, (random_chain_case(rng) for _ in range(20000 if thorough else 2000)), impl)
         # the property's quantifier, exhaustively: 16 scope subsets × all lists of <= 3 sources × placements × validity
         if thorough:
             _run_stream(ctx, exhaustive_state(BASE_KINDS + EXTRA_KINDS, 3), impl)
@@ -846,7 +996,7 @@ def search(ctx, reason, impl=None):
     rng = ctx.rng
     try:
         impl = impl or Impl()
-        streams = [exhaustive_root(), exhaustive_state(BASE_KINDS + EXTRA_KINDS, 2),
+        streams = [exhaustive_root(), exhaustive_chain(), exhaustive_state(BASE_KINDS + EXTRA_KINDS, 2),
                    (random_state_case(rng) for _ in range(40000)), exhaustive_state(BASE_KINDS + EXTRA_KINDS, 3)]
         for gen in streams:
             buf = []
